@@ -293,3 +293,25 @@ Proof.
   - cbn. repeat constructor; cbn; clia.
   - eexists _, _. split; reflexivity.
 Qed.
+
+(* removal through the abstraction, in one statement: the queue's absolute view loses exactly the
+   first entry of that session with that id; every other entry keeps its deadline and place *)
+Theorem sq_remove_others : forall q base s m t n q',
+  sq_remove q s m = Some ((t, n), q') ->
+  exists l1 l2 d, sq_abs base q = l1 ++ (d, n) :: l2 /\ sq_abs base q' = l1 ++ l2 /\
+    sq_match s m n = true /\ Forall (fun x => sq_match s m (snd x) = false) l1.
+Proof.
+  intros q base s m t n q' H. pose proof (sq_abs_remove q base s m) as V. rewrite H in V.
+  cbn [sq_rm_view snd] in V.
+  destruct (sq_spec_remove (sq_abs base q) s m) as [[[d n1] l']|] eqn:R; cbn in V; [|discriminate].
+  inversion V; subst. destruct (sq_spec_remove_some _ _ _ _ _ R) as (l1 & l2 & E1 & E2 & M & F).
+  exists l1, l2, d. cbn in M. auto.
+Qed.
+
+Theorem sq_remove_none_iff : forall q base s m,
+  sq_remove q s m = None <-> Forall (fun x => sq_match s m (snd x) = false) (sq_abs base q).
+Proof.
+  intros q base s m. rewrite <- sq_spec_remove_none. pose proof (sq_abs_remove q base s m) as V.
+  destruct (sq_remove q s m) as [[e q']|]; destruct (sq_spec_remove (sq_abs base q) s m) as [[e' l']|];
+    cbn in V; try discriminate; split; intros; try discriminate; reflexivity.
+Qed.
